@@ -184,6 +184,20 @@ def check_sample_seq(R, prog):
             n += 1
             pop = c.args[0]
             vals = env.get(pop.id, [pop]) if isinstance(pop, ast.Name) else [pop]
+            # a population produced by a function defined in the repository: the kind of what each definition returns
+            expanded = []
+            for v in vals:
+                if isinstance(v, ast.Call) and isinstance(v.func, ast.Name):
+                    top = fi
+                    while top.parent is not None:
+                        top = top.parent
+                    defs = [d for d in ast.walk(top.node) if isinstance(d, ast.FunctionDef) and d.name == v.func.id]
+                    rets = [r.value for d in defs for r in ast.walk(d) if isinstance(r, ast.Return) and r.value is not None]
+                    if rets:
+                        expanded += rets
+                        continue
+                expanded.append(v)
+            vals = expanded
             verdicts = [seq_kind(v) for v in vals]
             inst = "%s: random.sample(%s, ..)" % (fi.qualname, src(pop)[:40])
             if any(v is False for v in verdicts):
@@ -202,9 +216,17 @@ def seq_kind(v):
         return True
     if isinstance(v, (ast.GeneratorExp, ast.Set, ast.SetComp, ast.Dict, ast.DictComp)):
         return False
+    if isinstance(v, ast.BinOp) and isinstance(v.op, (ast.BitAnd, ast.BitOr, ast.BitXor, ast.Sub)):
+        l, r = seq_kind(v.left), seq_kind(v.right)
+        if l is False or r is False or (isinstance(v.right, ast.Attribute) and v.right.attr == "edgeset") or \
+                (isinstance(v.left, ast.Attribute) and v.left.attr == "edgeset"):
+            return False          # set algebra gives a set
+    if isinstance(v, ast.BinOp) and isinstance(v.op, (ast.Add, ast.Mult)):
+        l = seq_kind(v.left)
+        return l if l is not None else seq_kind(v.right)
     if isinstance(v, ast.Call):
         n = call_name(v) or ""
-        if n in ("range", "list", "sorted", "tuple") or n.endswith(".vertices") or n.endswith("available_edges") or n == "available_edges":
+        if n in ("range", "list", "sorted", "tuple") or n.endswith(".vertices"):
             return True
         if n in ("set", "dict", "frozenset") or n in ("map", "filter", "zip", "iter"):
             return False
